@@ -38,7 +38,7 @@ inductive Val where
   deriving Inhabited
 
 inductive Err where
-  | typeError | keyError | indexError | queueEmpty | attributeError | valueError | structError | overflowError | unsupported
+  | typeError | keyError | indexError | queueEmpty | attributeError | valueError | structError | overflowError | adbTimeout | unsupported
   deriving DecidableEq, Repr, Inhabited
 
 abbrev M := Except Err
@@ -250,7 +250,15 @@ def ltV (a b : Val) : M Val := do pure (.bool ((← asInt a) < (← asInt b)))
 def leV (a b : Val) : M Val := do pure (.bool ((← asInt a) ≤ (← asInt b)))
 def gtV (a b : Val) : M Val := do pure (.bool ((← asInt a) > (← asInt b)))
 def geV (a b : Val) : M Val := do pure (.bool ((← asInt a) ≥ (← asInt b)))
-def add (a b : Val) : M Val := do pure (.int ((← asInt a) + (← asInt b)))
+/-- `a + b`: numbers, or concatenation of byte strings (`bytearray += bytes` keeps the bytearray) -/
+def add (a b : Val) : M Val :=
+  match a, b with
+  | .bytearray x, .bytes y => pure (.bytearray (x ++ y))
+  | .bytearray x, .bytearray y => pure (.bytearray (x ++ y))
+  | .bytes x, .bytes y => pure (.bytes (x ++ y))
+  | .bytes x, .bytearray y => pure (.bytes (x ++ y))
+  | _, _ => do pure (.int ((← asInt a) + (← asInt b)))
+
 def sub (a b : Val) : M Val := do pure (.int ((← asInt a) - (← asInt b)))
 def mul (a b : Val) : M Val := do pure (.int ((← asInt a) * (← asInt b)))
 /-- `a // b` (floor division; ZeroDivisionError is outside the subset) -/
@@ -264,6 +272,13 @@ def mod (a b : Val) : M Val := do
 def natOf (v : Val) : M Nat := do
   let i ← asInt v
   if 0 ≤ i then pure i.toNat else throw .unsupported
+/-- `x[n:]` on byte strings for `n ≥ 0` -/
+def sliceFrom (x n : Val) : M Val := do
+  let k ← natOf n
+  match x with
+  | .bytes b => pure (.bytes (b.drop k))
+  | .bytearray b => pure (.bytearray (b.drop k))
+  | _ => throw .unsupported
 def bitand (a b : Val) : M Val := do pure (.int (((← natOf a) &&& (← natOf b) : Nat)))
 def bitxor (a b : Val) : M Val := do pure (.int (((← natOf a) ^^^ (← natOf b) : Nat)))
 def bitor (a b : Val) : M Val := do pure (.int (((← natOf a) ||| (← natOf b) : Nat)))
